@@ -156,8 +156,10 @@ package lexer
 //@ loop 0: invariant LInv(l) && (state != nil ==> Pre(state, l)) && (state == nil ==> l.done)
 //@ loop 0: decreases (l.done ? 0 : 1), len(l.input) - l.start, rank(state)
 
+// New: the lexer scans exactly the text it was given, from its first byte, line 1 (C16: offsets and
+// lines are those of the caller's input)
 //@ func New
-//@ ensures true
+//@ ensures [C16,scans-the-given-input-from-the-start] result != nil && result.input == input && result.start == 0 && result.pos == 0 && result.line == 1 && result.startLine == 1 && result.width == 0
 
 // the task keyword is recognised exactly when the next word is 'task': an identifier that merely
 // starts with it (tasks, task_dir) is an identifier (C07: such a name printed at the start of a line
